@@ -104,6 +104,9 @@ def match(p, n, b: dict, expanded: bool = False, exp=None) -> bool:
             return isinstance(n, ast.expr)
         if isinstance(p, ast.Assign) and isinstance(n, ast.AnnAssign) and len(p.targets) == 1 and n.value is not None:
             return match(p.targets[0], n.target, b, expanded, exp) and match(p.value, n.value, b, expanded, exp)
+        if isinstance(p, (ast.ListComp, ast.GeneratorExp)) and isinstance(n, (ast.ListComp, ast.GeneratorExp)) and type(p) is not type(n):
+            # a list comprehension and a generator expression enumerate the same elements in the same order
+            return match(p.elt, n.elt, b, expanded, exp) and match(p.generators, n.generators, b, expanded, exp)
         if type(p) is not type(n):
             return False
         if isinstance(p, ast.If):
